@@ -32,6 +32,11 @@ chk("C18",
     "Graphs beyond 5 jobs and ids outside the fixed spellings are not explored." + OVERLAY_NOTE,
     "explicit enumeration of all graphs x controlled map-iteration orders (stateless DFS over choice points) vs reference model")
 
+chk("C20",
+    "Stateless model checking of the real Linter.Lint/LintFile/LintFiles + concurrentProcess + externalCommand + shellcheck/pyflakes rule callbacks under a controlled scheduler over a scripted os/exec: per scenario (every shell source, <=2 files, <=3 run steps, semaphore size 1|2) all interleavings up to 2 preemptions (thorough 3) x all per-invocation tool outcomes with <=1 non-default answer (thorough 2); oracle: exact invocation multiset with equally long placeholder replacement, one diagnostic per issue at the run: key, fatal error for every listed failure, at most NumCPU processes at once, everything finished and collected when Lint* returns (success and error path), no deadlock, no WaitGroup misuse; plus sanitizeExpressionsInScript on all strings <=8 over 6 symbols against a reference.",
+    "The operating system below process.go is scripted (vexec); scheduling points are the sync operations, so unsynchronised accesses between them are outside this check (supported by a free-running -race pass only). Happens-before state caching assumes data-race freedom. RWMutex writer preference / semaphore FIFO are not modelled (superset of behaviours)." + OVERLAY_NOTE,
+    "controlled-scheduler stateless DFS with preemption and fault bounding + happens-before state caching, on the real code")
+
 # --- keep adding entries above this line -------------------------------------------------------
 
 ALL = [f"C{i:02d}" for i in range(1, 21)]
